@@ -8,6 +8,7 @@ from conductor.execution.ops.operation import Operation
 class LoweringState(enum.Enum):
     FIRST_VISIT = 0
     SECOND_VISIT = 1
+    DONE = 2
 
 
 class LoweringTask:
